@@ -313,17 +313,18 @@ def check_frontend(ctx, model):
         return
     # the per-asset closure building TransferFrom + IncreaseAllowance
     found = False
-    for q in model.closures_of(root):
-        cv = model.view(q)
+    # the per-asset body: a closure of the iterator pipeline, or the handler's own `for asset in &assets` loop
+    from .common import scope_views, scope_origins
+    for cv, cch in scope_views(model, root):
         tf = ia = None
         for b, i, s in cv.iter_stmts():
             rv = s["rv"]
             if rv["r"] == "agg" and rv.get("adt") == "cw20::Cw20ExecuteMsg":
                 f = dict(zip(rv["fields"], rv["ops"]))
                 if rv["variant"] == "TransferFrom":
-                    tf = cv.origins_of_operand(f["amount"], at=(b, i))
+                    tf = scope_origins(model, cch, cv, f["amount"], (b, i))
                 elif rv["variant"] == "IncreaseAllowance":
-                    ia = cv.origins_of_operand(f["amount"], at=(b, i))
+                    ia = scope_origins(model, cch, cv, f["amount"], (b, i))
         if tf is not None or ia is not None:
             found = True
             ctx.ob("C11-K5", "%s|transfer-and-allowance-same-amount" % root, tf is not None and ia is not None and tf == ia and bool(tf),
